@@ -193,3 +193,11 @@ claim("C30", "term comparison: function bodies of the closed-form transforms rea
       "the interpolation tables and of scipy/jax special functions is numerical and not decided.",
       TRUST + " sympy 1.14 (offline wheelhouse) as algebraic normaliser; the quantile/moment table is the checker's own (textbook formulas).",
       "DESIGN.md section 9.7")
+
+claim("C36", "def-use tracing from the reported names to the accumulated terms; term comparison of the per-sample statistics with the documented formulas",
+      "Decides only the formula clause: in nifty.re the per-leaf statistics are sum(x)/size and vdot(x,x).real/ndof with ndof = size "
+      "(real) or 2*size (complex), mapped over the samples and reported as [mean, std] in this order; in nifty.cl.extra.minisanity the "
+      "values reported as redchisq / scmean / ndof / nigndof are nansum(|x|^2)/n, nansum(x)/n, n = size - #NaN - #zero and #NaN + #zero "
+      "of the normalised residual (slot 0) and of the sample itself (slot 1). The sample averaging (StatCalculator, jnp.mean/std), the "
+      "printed table and the agreement of the two implementations (which differ by design in what they ignore) are not decided.",
+      TRUST, "DESIGN.md section 9.8")
